@@ -33,8 +33,7 @@ def gen_class(rng, name):
             lines.append("    %s: %s" % (a, t))
         attrs.append(a)
     meths = []
-    if rng.random() < 0.6:
-        m = rng.choice(["run", "setup"])
+    for m in rng.sample(["run", "setup", "create"], rng.choice([0, 1, 1, 1, 2, 3])):
         sig, names = gen_sig(rng, rng.choice(["self", "cls", None]))
         if sig.startswith("cls"):
             lines.append("    @classmethod")
@@ -272,7 +271,13 @@ def diff_property(c, before, after, repl):
             fna = la[2] if la else None
             if fna is not None and [ast.dump(x) for x in fnb.args.defaults] != [ast.dump(x) for x in fna.args.defaults]:
                 same = repl is not None and repl[0] == "ann" and any(x.arg == repl[1] for x in fnb.args.args)
-                probs.append(("other-default-changed/%s" % ("same-name-attribute" if same else "other"),
+                if same:
+                    # which slot of `defaults` was overwritten, relative to the position of the target among the non-receiver parameters
+                    # (the recorded defect indexes `defaults` by that position)
+                    pos_args = [x.arg for x in fnb.args.args if x.arg not in ("self", "cls")]
+                    changed = [i for i, (x, y) in enumerate(zip(fnb.args.defaults, fna.args.defaults)) if ast.dump(x) != ast.dump(y)]
+                    same = "same-name-attribute" + ("" if changed == [pos_args.index(path[-1])] else "/slot-is-not-the-parameter-position")
+                probs.append(("other-default-changed/%s" % (same if same else "other"),
                               {"before": [ast.unparse(x) for x in fnb.args.defaults], "after": [ast.unparse(x) for x in fna.args.defaults]}))
                 return probs
         probs.append(("something-else-changed/%s-into-%s" % (c["in_kind"], c["out_kind"]), {}))
@@ -312,6 +317,13 @@ def gen_case(rng):
         in_kind, ip = rng.choice(pool)
     pool = [("attr", p) for p in oattrs] + [("param", p) for p in oparams]
     # the target takes the input's NAME: keep only targets whose scope does not already hold that name
+    if not ev and not same_file and oparams and rng.random() < 0.2:
+        # the "keep config and signature in sync" use: a class attribute WITH a value, named like the parameter it is synced onto
+        op = rng.choice(oparams)
+        t = rng.choice(ANNS)
+        isrc = "from typing import List, Literal, Optional, Union\n\nclass Cfg(object):\n    %s: %s = %s\n" % (op.split(".")[-1], t, rng.choice(VALS[t]))
+        return {"input_src": isrc, "output_src": osrc, "input_param": "Cfg." + op.split(".")[-1], "output_param": op, "in_kind": "attr",
+                "out_kind": "param", "wrap": rng.random() < 0.3, "eval": False, "eval_want": ev_want, "same_file": False}
     in_name = ip.split(".")[-1]
     scope = lambda p: p.rsplit(".", 1)[0]
     taken = lambda p: any(q != p and scope(q) == scope(p) and q.split(".")[-1] == in_name for _k, q in pool)
